@@ -15,9 +15,8 @@ RULE = ('Hypothesis draws a base file (2..4 parameters, 1..6 events with non-dec
         'channel absent / present in any letter case / twice; $PnE incl. a0,0.  Non-trivial = at least one '
         'ill-formed keyword, or a vendor fallback in effect, or a time channel without time step.')
 ASSUMPTIONS = ['independent derivation of every attribute from the keywords in pbt/props/c17.py',
-               'when a standard keyword is ill-formed AND a fallback keyword is available the statement does not '
-               'say which wins: both the fallback value and None are accepted ($PnV/BD$WORD, $PnG/Cytek, '
-               '$TIMESTEP/TIMETICKS)',
+               'an unparseable standard keyword ($PnV, $PnG, $TIMESTEP) yields an absent attribute even when a vendor '
+               'or legacy keyword is present ("missing or unparseable yields an absent attribute")',
                'well-formed number = plain decimal; blank = a single space (TEXT cannot hold an empty value); '
                'yy-mmm-dd dates use yy>31 (otherwise ambiguous with dd-mmm-yy)']
 BUDGET = {
@@ -100,8 +99,8 @@ def _case(draw):
     cytek = [draw(st.one_of(st.none(), _num(st.sampled_from([1, 4, 8.5])))) for _ in range(D)]
     return dict(version=draw(st.sampled_from(['FCS2.0', 'FCS3.0', 'FCS3.1'])), datatype=dt, names=names, events=events,
                 ranges=[draw(st.sampled_from([1024, 2048, 4096, 262144])) for _ in range(D)], pne=pne,
-                timestep=draw(st.one_of(st.none(), st.none(), _num(st.sampled_from([0.01, 0.1, 1, 0.5, 0.001])))),
-                timeticks=draw(st.one_of(st.none(), st.none(), _num(st.sampled_from([100, 200, 1000, 50.5])))),
+                timestep=draw(st.one_of(st.none(), st.none(), _num(st.sampled_from([0.01, 0.1, 1, 0.5, 0.001, 0, 0.0])))),
+                timeticks=draw(st.one_of(st.none(), st.none(), _num(st.sampled_from([100, 200, 1000, 50.5, 0])))),
                 btim=draw(_time()), etim=draw(_time()), date=draw(_date()), volt=volt, gain=gain, labels=labels,
                 creator=creator, bdword=bdword, cytek=cytek)
 
@@ -163,8 +162,8 @@ def check(case, obs):
     ts, tk = c['timestep'], c['timeticks']
     if ts is not None and ts['v'] is not None:
         exp_ts = [ts['v']]
-    elif ts is not None:                                  # ill-formed standard keyword
-        exp_ts = [None] + ([tk['v'] / 1000.0] if (tk is not None and tk['v'] is not None) else [])
+    elif ts is not None:                                  # ill-formed standard keyword: an absent attribute
+        exp_ts = [None]
     elif tk is not None:
         exp_ts = [tk['v'] / 1000.0 if tk['v'] is not None else None]
     else:
@@ -210,8 +209,8 @@ def check(case, obs):
         for i in range(D):
             if std[i] is not None and std[i]['v'] is not None:
                 allowed = [std[i]['v']]
-            elif std[i] is not None:                       # ill-formed standard keyword
-                allowed = [None] + ([alt[i]['v']] if (use_alt and alt[i] is not None) else [])
+            elif std[i] is not None:                       # ill-formed standard keyword: an absent attribute
+                allowed = [None]
             elif use_alt and alt[i] is not None:
                 allowed = [alt[i]['v']]
             else:
